@@ -173,6 +173,28 @@ def run(c):
         br.append({"op": "close", "conn": conn})
         branches.append(br)
     c.extra["late_answering_host_exchanges"] = 1 if not thorough else 3
+    # large message heads (a big bearer token, a client assertion, cookies, a very long query): relayed like any other
+    for hi, (hsize, where) in enumerate([(20000, "header"), (60000, "header"), (30000, "query"), (200000, "headers")] + ([(350000, "headers")] if thorough else [])):
+        conn = "bighead%d" % hi
+        rid = conn + "_1"
+        dip, dport, dname = dests[hi % 3]
+        hs = [["Host", dip], ["X-Token", rid]]
+        target = "/big/" + rid
+        if where == "header":
+            hs.append(["Authorization", "Bearer " + "t" * hsize])
+        elif where == "query":
+            target += "?assertion=" + "q" * hsize
+        else:
+            hs += [["X-Part-%d" % j, "p" * 7900] for j in range(hsize // 8000)]
+        rhs = [["Content-Type", "text/plain"], ["X-Host", rid]]
+        branches.append([{"op": "connect", "conn": conn, "attr": {"uid": 0, "admin": 1, "dip": dip, "dport": dport}},
+                         {"op": "request", "conn": conn, "id": rid, "method": "GET", "target": target, "headers": hs,
+                          "body": {"seed": 1, "len": 0}, "framing": "none",
+                          "resp": {"status": 200, "headers": rhs, "body": {"seed": 60 + hi, "len": 33}, "framing": "cl"}},
+                         {"op": "close", "conn": conn}])
+        meta[rid] = {"conn": conn, "k": 1, "method": "GET", "target": target, "headers": hs, "blen": 0, "bseed": 1, "status": 200,
+                     "rhs": rhs, "rlen": 33, "rseed": 60 + hi, "dest": dname}
+    c.extra["large_message_heads"] = "20 KB .. 200 KB"
     ev, d, _ = rig.run_rig({"steps": [{"op": "parallel", "branches": branches}], "drain_ms": 400}, "c14", timeout=900)
     recv_by_id, hseq, hconn_owner = {}, {}, {}
     for e in ev:
